@@ -5,6 +5,7 @@ import (
 	"net/http"
 	"os"
 	"path/filepath"
+	"strings"
 	"testing"
 	"time"
 
@@ -20,6 +21,8 @@ import (
 type c16Flag struct {
 	Flag  string
 	Value string
+	// -connect-to may be repeated and collects into one map: values given earlier on the same command line
+	Before []string `json:",omitempty"`
 }
 
 func runC16Flag(c c16Flag) error {
@@ -53,6 +56,9 @@ func runC16Flag(c c16Flag) error {
 		case "connect-to":
 			var m map[string][]string
 			f := &connectToFlag{&m}
+			for _, b := range c.Before {
+				_ = f.Set(b)
+			}
 			if err = f.Set(c.Value); err == nil {
 				_ = f.String()
 				_ = vegeta.NewAttacker(vegeta.ConnectTo(m))
@@ -76,7 +82,7 @@ var c16FlagSeeds = map[string][]string{
 	"header":     {"Content-Type: text/plain", "a:b", "X: y: z"},
 	"max-body":   {"-1", "10 MB", "10240 g", "2000", "1tB", "5 peta", "28 kilobytes", "18446744073709551615", "nan", "NaN MB", "inf", "1e400"},
 	"dns-ttl":    {"-1", "0", "50ms", "1h", "nan", "inf", "NaNs"},
-	"connect-to": {"google.com:80:localhost:6060", "a:1:b:2"},
+	"connect-to": {"google.com:80:localhost:6060", "a:1:b:2", "a:1:c:3", "a:1:d:4"},
 	"resolvers":  {"1.2.3.4", "1.2.3.4:53,8.8.8.8", "::1"},
 }
 
@@ -95,7 +101,10 @@ func TestC16Flags(t *testing.T) {
 			other := rapid.SampledFrom(c16FlagSeeds[c.Flag]).Draw(t, "other")
 			c.Value = string(vgen.Mutate(t, "mut", []byte(seed), []byte(other)))
 		}
-		vh.Case("C16.flags", c.Flag+"\x00"+c.Value, c.Value != seed, c.Flag)
+		if c.Flag == "connect-to" && rapid.Bool().Draw(t, "repeated") {
+			c.Before = rapid.SliceOfN(rapid.SampledFrom(c16FlagSeeds[c.Flag]), 1, 4).Draw(t, "before")
+		}
+		vh.Case("C16.flags", c.Flag+"\x00"+c.Value+"\x00"+strings.Join(c.Before, "\x00"), c.Value != seed || len(c.Before) > 0, c.Flag)
 		if len(c.Value) < 100 {
 			vh.Sample("C16.flags", true, c)
 		}
